@@ -7,6 +7,8 @@ program list (any number of emitting threads, any number of emissions, `into_inn
 thread) and EVERY schedule, by the inductive invariant `Proofs/Recoverable.lean: Inv`.
 -/
 import MetricsVerif.Proofs.Recoverable
+import MetricsVerif.Proofs.SrcShapes
+import MetricsVerif.Generated.SourceFacts
 
 namespace MetricsVerif.C20
 open MetricsVerif.Recoverable
@@ -155,5 +157,23 @@ example :
     let s := run (init [[.emit, .emit], [.intoInner], [.emit]]) [0, 1, 2, 0, 1, 1, 0, 1, 2, 0, 0]
     s.threads.map (·.results) = [[.delivered, .ignored], [.recovered], [.ignored]]
     ∧ s.recovered = true ∧ s.finalised = 0 ∧ s.unwrapBusy = false := by decide
+
+
+/-! ### source facts (regenerated from /repo on every run)
+
+The step machine has ONE emission shape: upgrade the weak reference, call the wrapped recorder, drop the strong
+reference; and `into_inner` retries `Arc::try_unwrap`.  The translator lists, for each of the six `Recorder`
+methods of `WeakRecorder`, the calls it makes: each must upgrade first and forward to its namesake (and the
+register methods fall back to the no-op handle of their own kind). -/
+
+theorem src_weak_forwarding :
+    Generated.weak_forwarding =
+      [("describe_counter", "recorder.upgrade recorder.describe_counter"),
+       ("describe_gauge", "recorder.upgrade recorder.describe_gauge"),
+       ("describe_histogram", "recorder.upgrade recorder.describe_histogram"),
+       ("register_counter", "recorder.upgrade recorder.register_counter noop:Counter"),
+       ("register_gauge", "recorder.upgrade recorder.register_gauge noop:Gauge"),
+       ("register_histogram", "recorder.upgrade recorder.register_histogram noop:Histogram")]
+    ∧ Generated.recover_into_inner_calls = ["Arc::try_unwrap"] := by decide
 
 end MetricsVerif.C20
